@@ -73,14 +73,28 @@ var numRange = map[string][2]int{
 	"count/O":      {2, 4}, // defaults 128 / 512 / 2048, offered 140
 	"count/S":      {5, 9},
 	"count/G":      {10, 20},
+	// cross-setting configurations of the batch processors: A = small, B = large (defaults 2048 / 512)
+	"pair.queue/A": {60, 200},
+	"pair.queue/B": {2500, 3500},
+	"pair.batch/A": {20, 50},
+	"pair.batch/B": {600, 1000},
 }
 
 // numVal: concrete value (count, or milliseconds) of value id for a setting.
 func (c *Conc) numVal(setting, id string) int {
-	key := unitOf(setting) + "/" + id
+	if id == "A" || id == "B" {
+		if unitOf(setting) == "count" {
+			return c.numOf("pair." + setting[strings.IndexByte(setting, '.')+1:] + "/" + id)
+		}
+		id = map[string]string{"A": "O", "B": "S"}[id]
+	}
+	return c.numOf(unitOf(setting) + "/" + id)
+}
+
+func (c *Conc) numOf(key string) int {
 	rg, ok := numRange[key]
 	if !ok {
-		panic("numVal: unknown id " + id + " for " + setting)
+		panic("numVal: unknown value " + key)
 	}
 	if c.r == nil {
 		n := rg[1] - rg[0] + 1
